@@ -450,6 +450,11 @@ def rule_false_implies_absent(ctx):
     return obs
 
 
+def reachable_in(fn, node):
+    pos = fn.block_of(node)
+    return bool(pos) and pos[0] in graph(fn).reach
+
+
 def rule_data_exact(ctx):
     """the constructor stores exactly one code per input point: the vector of codes starts empty when the points are appended
     to it (a size argument in its initialiser would leave that many value-initialised codes - the origin - in the index)"""
@@ -478,7 +483,18 @@ def rule_data_exact(ctx):
                     desc = f"data is initialised with `{fmt_term(t)[:70]}`"
                 else:
                     desc = f"data is initialised with `{fmt_term(t)[:40]}`"
-            if appends == 0:
+            stores = 0
+            for g in [f] + kids:
+                for i in g.all_ids():
+                    nd = g.n(i)
+                    if nd['c'] in ('BinaryOperator', 'CXXOperatorCallExpr') and (nd.get('op') == '=') and reachable_in(g, i):
+                        lhs = nd['ch'][0] if nd['c'] == 'BinaryOperator' else nd['args'][0]
+                        lt = _sc(g.term(lhs, inline=False))
+                        if lt[0] in ('index', 'deref') and any(x == ('field', 'data', ('this',)) for x in _subterms(lt)):
+                            stores += 1
+            if appends == 0 and sized and stores:
+                obs.append(Ob('DATA-EXACT', f, ini[0]['expr'], 'the constructor stores exactly one code per point', desc + f"; filled by {stores} indexed store site(s), no append", OK, arm='ctor'))
+            elif appends == 0:
                 obs.append(Ob('DATA-EXACT', f, 0, 'the constructor appends one code per point to an initially empty vector', 'no append to data found', UNDECIDED, arm='ctor'))
             else:
                 obs.append(Ob('DATA-EXACT', f, ini[0]['expr'] if ini else 0, 'the constructor appends one code per point to an initially empty vector',
